@@ -656,6 +656,7 @@ def run_differential(prop, tier, seed, replay=None):
         except subprocess.TimeoutExpired:
             model = {}
         out = {}
+        prop._outdir = os.path.join(wd, "out")
         for c in batch:
             il, ml = impl.get(c.id, ["R missing"]), model.get(c.id, ["R model-missing"])
             out[c.id] = (il, ml, prop.compare(c, il, ml), prop.oracle(c, il))
